@@ -177,16 +177,6 @@ theorem fillG_others (i : Nat) (P : Tok → Prop) (lastOrig : Bool) (x : Item S)
       · exact i3 b' hb''
 
 
-/-- one `fill` of the branch alone: it is handed `y`; if that is a copy, its objects hold what the
-objects of `x` held at the start -/
-def aloneFill (st0 : Store C) (x y : Item S) (copied : Bool) (stA : Store C) (b : Branch σ S C) :
-    List (Ev S C) × Store C × Branch σ S C × Bool :=
-  ([.hand b.id [y] copied,
-    .fill b.id y (b.ops.act (if copied then preload st0 [x] [y] stA else stA) b.st (.fill y)).2.2.stopped],
-   (b.ops.act (if copied then preload st0 [x] [y] stA else stA) b.st (.fill y)).1,
-   { b with st := (b.ops.act (if copied then preload st0 [x] [y] stA else stA) b.st (.fill y)).2.1 },
-   (b.ops.act (if copied then preload st0 [x] [y] stA else stA) b.st (.fill y)).2.2.stopped)
-
 theorem fillOne_sim (i : Nat) (st0 : Store C) (Ui : List Tok) (x : Item S) (copied : Bool)
     (w1 : World C) (stA : Store C) (b : Branch σ S C) (hbid : b.id = i) (hloc : Local b.ops (ownNs i))
     (hmine : ∀ t ∈ b.ops.refs b.st, Prot i Ui t) (hup : ∀ t ∈ x.cells, t.1 = upNs)
@@ -396,23 +386,6 @@ theorem fillG_sim (i : Nat) (st0 : Store C) (Ui Fut : List Tok) (lastOrig : Bool
 
 
 /-! ## a whole flow -/
-
-/-- the branch alone, filled with the values of a schedule `(value, what it is handed, copied)` until it
-raises `LenaStopFill` -/
-def aloneFillLife (st0 : Store C) : Store C → Branch σ S C → List (Item S × Item S × Bool) →
-    List (Ev S C) × Store C × Branch σ S C × Bool
-  | st, b, [] => ([], st, b, false)
-  | st, b, e :: rest =>
-    if (aloneFill st0 e.1 e.2.1 e.2.2 st b).2.2.2 then aloneFill st0 e.1 e.2.1 e.2.2 st b
-    else
-      ((aloneFill st0 e.1 e.2.1 e.2.2 st b).1 ++
-          (aloneFillLife st0 (aloneFill st0 e.1 e.2.1 e.2.2 st b).2.1 (aloneFill st0 e.1 e.2.1 e.2.2 st b).2.2.1 rest).1,
-        (aloneFillLife st0 (aloneFill st0 e.1 e.2.1 e.2.2 st b).2.1 (aloneFill st0 e.1 e.2.1 e.2.2 st b).2.2.1 rest).2)
-
-/-- a schedule entry for branch `i`: what it is handed is a deep copy of the value made of objects created
-for `i`, or the value itself -/
-def FillOK (i : Nat) (e : Item S × Item S × Bool) : Prop :=
-  e.2.1.skel = e.1.skel ∧ (e.2.2 = false → e.2.1 = e.1) ∧ (e.2.2 = true → ∀ t ∈ e.2.1.cells, t.1 = copyNsOf i)
 
 theorem fillFlow_sim (i : Nat) (st0 : Store C) (lastOrig : Bool) : ∀ (flow : List (Item S)) (Ui : List Tok)
     (w : World C) (act : List (Branch σ S C)) (stA : Store C) (b : Branch σ S C),
